@@ -452,6 +452,67 @@ def r15_7(ctx, rc):
         raise AnalysisError('only %d call sites of the cache reader' % n)
 
 
+def r15_8(ctx, rc):
+    """An argument type test is not bypassed: in a function that refuses
+    ``not isinstance(P, T)`` with TypeError, every normal exit lies behind
+    the edge on which the test succeeded (a fast path placed before the test
+    lets wrongly typed arguments through, and the call is carried out
+    instead of refused)."""
+    R = ctx.R
+    prog = ctx.prog
+    from .. import queries as Q
+    n = 0
+    for f in prog.funcs.values():
+        if f.cls != R.builder:
+            continue
+        tests = []
+        for st in ast.walk(f.node):
+            if not isinstance(st, ast.If) or not st.body or not isinstance(
+                    st.body[-1], ast.Raise):
+                continue
+            for t in ast.walk(st.test):
+                if isinstance(t, ast.Call) and isinstance(
+                        t.func, ast.Name) and t.func.id == 'isinstance' and \
+                        len(t.args) == 2 and isinstance(
+                            t.args[0], ast.Name) and \
+                        t.args[0].id in f.params:
+                    tests.append((st, t))
+        if not tests:
+            continue
+        sg = ctx.E.super(f, lambda g: False)
+        ends = set(sg.normal_exits())
+        for st, t in tests:
+            # only tests that sit at the top level of the function body:
+            # validation of the argument as such
+            if st not in f.node.body:
+                continue
+            n += 1
+            # the guard is evaluated on every path to a normal exit (its
+            # condition may allow more than the isinstance, e.g. None)
+            atoms = {id(x) for x in ast.walk(st.test)}
+            seen = sg.reach(
+                [sg.entry],
+                avoid=lambda x: x.frame.parent is None and
+                x.cn is not None and x.cn.kind == 'cond' and
+                id(x.cn.atom) in atoms)
+            hit = [e for e in ends if e in seen]
+            key = 'type test of %s in %s' % (t.args[0].id, f.qualname)
+            if hit:
+                rc.violation(
+                    'type-test-bypassed | %s | %s' % (f.qualname,
+                                                      t.args[0].id),
+                    '%s can return normally without %s having succeeded: a '
+                    'wrongly typed argument is accepted and the call is '
+                    'carried out instead of refused' % (
+                        f.qualname, ast.unparse(t)), prog.loc(f, st),
+                    sg.describe_path(sg.witness(seen, hit[0])), key=key)
+            else:
+                rc.ok({'validator': f.qualname, 'test': ast.unparse(t)},
+                      key=key)
+    if n < 5:
+        raise AnalysisError('only %d argument type tests found' % n)
+
+
 RULES = [
     ('R15.1', 'no mutating effect can precede a refusal point', r15_1),
     ('R15.2', 'refusal callees are read-only', r15_2),
@@ -460,4 +521,5 @@ RULES = [
     ('R15.5', 'no effect unless the build name was compared', r15_5),
     ('R15.6', 'the reader accepts only files it can vouch for', r15_6),
     ('R15.7', 'a refusal of the cache reader is never swallowed', r15_7),
+    ('R15.8', 'argument type tests are not bypassed', r15_8),
 ]
